@@ -2,7 +2,7 @@
     advertise.  Statements quoted by type from ProtoFacts.v, NpFactsA.v and
     ViewFacts.v (printed by [Check] below). *)
 From MW Require Import Base Store Monad Usage Server Websocket Service Findings Inv Obs
-     ProtoFacts NpFactsA StepFacts ViewFacts ViewFactsR ViewFactsX Inst_Params.
+     ProtoFacts NpFactsA StepFacts ViewFacts ViewFactsR ViewFactsX Inst_Params ArrivalFacts.
 Local Open Scope list_scope.
 
 (** `list` is answered (after the ack) by exactly one `nameplates` frame carrying
@@ -168,4 +168,12 @@ Theorem C18_crash_frames_equal_refuted : ltac:(let t := type of crash_frames_equ
 Proof. exact crash_frames_equal_refuted. Qed.
 Check C18_crash_frames_equal_refuted.
 Print Assumptions C18_crash_frames_equal_refuted.
+
+(** * send stamps too (quoted by type from ArrivalFacts.v) *)
+
+(** `everything clients observe` includes server_tx: the stamps of all frames agree in the two runs *)
+Theorem C18_config_erasure_stamps : ltac:(let t := type of config_erasure_stamps in exact t).
+Proof. exact config_erasure_stamps. Qed.
+Check C18_config_erasure_stamps.
+Print Assumptions C18_config_erasure_stamps.
 
